@@ -96,10 +96,14 @@ PROPS = {
     },
     "C05": {
         "title": "Encoding again without edits gives the same bytes",
-        "units": ["V2_reindex"],
+        "units": ["V2_reindex", "V8_lower", "V3_remap"],
         "obligations": ["V2_reindex.kf.recalculate_ids.reestablishes_id_invariant",
                         "V2_reindex.recalculate_ids.container_is_intended_order", "V2_reindex.fn:recalculate_ids",
-                        "V2_reindex.fn:lemma_reorganised_distinct"],
+                        "V2_reindex.fn:lemma_reorganised_distinct",
+                        # resolved function-level instrumentation is consumed (cannot be lowered a second time)
+                        "V8_lower.resolve_function_entry.*", "V8_lower.fn:resolve_function_entry", "V8_lower.resolve_function_exit.*", "V8_lower.fn:resolve_function_exit",
+                        # with identity maps (what a second encode must see) the in-place rewrite changes nothing
+                        "V3_remap.lemma.identity_remap_is_noop", "V3_remap.fn:lemma_identity_remap_is_noop"],
         "glue": [ENCODE_GLUE, "Module::resolve_special_instrumentation driver loop (flags are resolved in place)"],
         "design_ref": "DESIGN.md §4 V2, §5 C05",
         "level_text": "The re-indexing core is proved to produce the intended order for all inputs; the obligation that a second encode needs (stored ids equal positions again after the call) is a separate obligation that fails on the current code and is listed as known finding F03.",
